@@ -45,7 +45,7 @@ def gen_ops(rng):
             ops.append(("add", k, kind))
     for k in NAMES_INVALID[2:]:
         ops.append(("add", k, "own"))       # valid prefix, illegal tail; empty name
-    ops += [("add", "A", "foreign"), ("add", "B", "foreign-alg"), ("add", "A", "wrong-length"), ("add", "D_1", "wrong-length-raw")]
+    ops += [("add", "A", "foreign"), ("add", "B", "foreign-alg"), ("add", "B", "foreign-empty"), ("add", "Cc", "foreign-empty"), ("add", "A", "wrong-length"), ("add", "D_1", "wrong-length-raw")]
     for k in NAMES_VALID + NAMES_INVALID + NAMES_RESERVED[:3] + ["__tracebackhide__"]:
         ops.append(("get", k))
     ops += [("contains", "A"), ("create_pointer",)]
@@ -84,6 +84,7 @@ def run(rep, tier, rng):
         voc = spa.Vocabulary(d, strict=strict, max_similarity=1e9, pointer_gen=gen(), algebra=A)
         foreign = spa.Vocabulary(d, algebra=A)
         foreign.populate("X")
+        foreign_empty = spa.Vocabulary(d, algebra=A)
         cops, snaps, pylog = [], [], []
         handed_in = []
         for op in hist:
@@ -102,6 +103,9 @@ def run(rep, tier, rng):
                     elif how == "foreign":
                         vec = [int(x) for x in np.round(foreign["X"].v * 0)]
                         p = foreign["X"]; cp = coq_ptr(vec, "ForeignVocab", True)
+                    elif how == "foreign-empty":
+                        # a pointer of another vocabulary that has no keys (an empty vocabulary is falsy in Python)
+                        p = SemanticPointer(algs.fl(vec), vocab=foreign_empty); cp = coq_ptr(vec, "ForeignVocab", True)
                     elif how == "foreign-alg":
                         p = SemanticPointer(algs.fl(vec), algebra=B); cp = coq_ptr(vec, "NoVocab", False)
                     elif how == "wrong-length":
